@@ -270,6 +270,57 @@ func main() {
 				}
 			}
 			if yieldDirs[d] || coopDirs[d] || (*doFS && d == "storage/fsstore") {
+				// Blocking channel operations outside select statements become cooperative ones: a task that
+				// really blocked on a channel only a parked task can serve would stop the simulation.
+				inSelect := map[ast.Node]bool{}
+				ast.Inspect(f, func(n ast.Node) bool {
+					if cc, ok := n.(*ast.CommClause); ok && cc.Comm != nil {
+						ast.Inspect(cc.Comm, func(m ast.Node) bool {
+							if m != nil {
+								inSelect[m] = true
+							}
+							return true
+						})
+					}
+					return true
+				})
+				twoValue := map[ast.Node]bool{}
+				ast.Inspect(f, func(n ast.Node) bool {
+					switch x := n.(type) {
+					case *ast.AssignStmt:
+						if len(x.Lhs) == 2 && len(x.Rhs) == 1 {
+							if u, ok := x.Rhs[0].(*ast.UnaryExpr); ok && u.Op == token.ARROW {
+								twoValue[u] = true
+							}
+						}
+					case *ast.ValueSpec:
+						if len(x.Names) == 2 && len(x.Values) == 1 {
+							if u, ok := x.Values[0].(*ast.UnaryExpr); ok && u.Op == token.ARROW {
+								twoValue[u] = true
+							}
+						}
+					}
+					return true
+				})
+				ast.Inspect(f, func(n ast.Node) bool {
+					switch x := n.(type) {
+					case *ast.UnaryExpr:
+						if x.Op == token.ARROW && !inSelect[x] {
+							fn := "zzsimhook.Recv1("
+							if twoValue[x] {
+								fn = "zzsimhook.Recv2("
+							}
+							edits = append(edits, edit{off(x.Pos()), 2, fn}, edit{off(x.X.End()), 0, ")"})
+						}
+					case *ast.SendStmt:
+						if !inSelect[x] {
+							edits = append(edits, edit{off(x.Chan.Pos()), 0, "zzsimhook.Send("},
+								edit{off(x.Chan.End()), off(x.Value.Pos()) - off(x.Chan.End()), ", "},
+								edit{off(x.Value.End()), 0, ")"})
+						}
+					}
+					return true
+				})
 				// context.AfterFunc starts a goroutine the scheduler does not own: the simulator runs
 				// the callback itself (zzsimhook.AfterFunc), at a yield point of its choosing
 				if ctxN := importName(f, "context", "context"); ctxN != "" && ctxN != "_" {
